@@ -45,6 +45,7 @@ CLAUSES = {
     28: ('window field=%d', 1),
     29: ('lut-table cmd=%02x', 1),
     30: ('no-lut-upload', 0),
+    31: ('no-reset-pulse', 0),
 }
 
 def clause_str(code, a, b):
